@@ -16,7 +16,8 @@ OutputBuffer = runner.M['outputbuffer'].OutputBuffer
 PROTOS = ['1.5', '1.99', '2.0', '2.99']
 TOKCH = ['a', '1', '.', '-', '_', '+']
 COMMENTS = [None, 'c', 'c d']
-INJECT = ['\x80', '\x00', '\t', '\x7f', 'é']
+# '?' is what the tool shows in place of a character outside printable ASCII: the clean twin of every dirty line is parsed right before and right after it
+INJECT = ['?', '\x80', '\x00', '\t', '\x7f', 'é', '?']
 TEMPLATES = [
     ('OpenSSH', 'OpenSSH_%s%s', ['3.9', '7.4', '8.9', '9.6', '10.0', '10.12'], ['', 'p1', 'p2-hpn14v', ' Debian-10']),
     ('Dropbear SSH', 'dropbear_%s%s', ['0.53', '2016.74', '2020.81', '2024.85'], ['', '_test1']),
@@ -226,6 +227,45 @@ def work_cli(chunk, st):
                     st.violation('cli:json-banner-differs', {'banner': bl, 'got': jb, 'expected': exp})
 
 
+def work_twins(chunk, st):
+    """two targets of ONE invocation whose identification strings differ only in that one has a character outside printable ASCII where
+    the other has a literal '?' (what the tool shows instead): each is reported as when audited alone, in both orders"""
+    for clean, dirty, order, fmt in chunk:
+        pair = [clean, dirty] if order == 0 else [dirty, clean]
+        servers = [P.Server(banner=b.encode('latin1')) for b in pair]
+        res, outs = H.audit_sequence(servers, opts=['-n', '--skip-rate-test'] + (['-j'] if fmt == 'json' else []))
+        root = ('twins', clean, dirty, order, fmt)
+        st.execution(res.world, outcome=('twins', res.status, fmt), root=root, nontrivial=root)
+        if outs is None or len(outs) != 2:
+            st.violation('twins:output-shape', {'banners': pair, 'stdout': res.stdout[-200:]})
+            continue
+        for bl, o in zip(pair, outs):
+            want, _h = RB.scan([RB.decode_line(bl.encode('latin1'))])
+            if fmt == 'text':
+                rep = report.TextReport(o)
+                flagged = any('non-printable' in v for k, v in rep.gen_all if k.startswith('banner contains')) or '(gen) banner contains non-printable ASCII' in o
+                if flagged != (not want['valid_ascii']):
+                    st.violation('twins:non-conforming-flag-depends-on-earlier-targets', {'banners_in_run': pair, 'banner': bl, 'flagged': flagged})
+                if rep.gen.get('banner') != RB.render(want):
+                    st.violation('twins:text-banner-differs', {'banners_in_run': pair, 'banner': bl, 'shown': rep.gen.get('banner')})
+            else:
+                jb = o.get('banner', {}) if isinstance(o, dict) else {}
+                exp = {'raw': RB.render(want), 'protocol': '%d.%d' % want['protocol'], 'software': want['software'], 'comments': want['comments']}
+                if jb != exp:
+                    st.violation('twins:json-banner-differs', {'banners_in_run': pair, 'banner': bl, 'got': jb, 'expected': exp})
+    st.sample({'twin_banners': [chunk[0][0], chunk[0][1]]}, cap=3)
+
+
+def twin_tasks():
+    out = []
+    for base, pos in (('SSH-2.0-OpenSSH_9.6', 12), ('SSH-2.0-build7 note', 13), ('SSH-1.99-dropbear_2020.81', 20), ('SSH-2.0-x c', 10)):
+        for ch in ('\x07', '\x80', '\x7f', '\xe9'):
+            for order in (0, 1):
+                for fmt in ('text', 'json'):
+                    out.append((base[:pos] + '?' + base[pos:], base[:pos] + ch + base[pos:], order, fmt))
+    return out
+
+
 def run(tier, seed):
     t0 = time.time()
     st = evidence.Stats()
@@ -234,6 +274,7 @@ def run(tier, seed):
     par.pmap(work_sock, sock_cases(tier), stats=st)
     cli = [(tuple(pre), bl, eol) for pre in PRELINES for bl in SOCK_BANNERS for eol in ('\r\n', '\n')]
     par.pmap(work_cli, cli, stats=st)
+    par.pmap(work_twins, twin_tasks(), stats=st, chunk=4)
     vcases = []
     for pre, bl, eol in H.pick(cli, seed, 20 if tier == 'quick' else 80):
         vcases.append({'label': 'banner %r %r' % (pre, bl), 'opts': ['-n'] + (['-j'] if len(vcases) % 2 else []),
@@ -248,7 +289,7 @@ def run(tier, seed):
         rule='banner grammar to a bound: protocol %s x software tokens of length 1..%d over %s x comments %s with 1-3 space separators and trailing '
              'spaces; non-printable/non-ASCII characters %r injected at every position of short lines; product templates x versions x patches; '
              'socket path: %d header-line prefixes (incl. near-misses) x %d banners x CRLF/LF delivered whole and split at every%s offset; CLI text '
-             'and JSON for every prefix x banner x ending; non-trivial = lines inside the grammar' % (
+             'and JSON for every prefix x banner x ending; pairs of targets in one invocation whose banners differ only in (non-printable character | literal "?") at one position, both orders; non-trivial = lines inside the grammar' % (
                  PROTOS, 2 if tier == 'quick' else 3, TOKCH, COMMENTS, INJECT, len(PRELINES), len(SOCK_BANNERS), ' 3rd' if tier == 'quick' else ''),
         assumptions=['reference parser refmodels/banner.py written from RFC 4253 section 4.2', 'comments compared modulo collapsing of runs of blanks'],
         exhaustive=True, traces_validated=validated)
